@@ -153,3 +153,7 @@ type NativeUnsupportedError string
 // a dependency (verifStub_* functions, injected by the engine only). A counterexample of such a harness
 // is confirmed by re-execution inside the engine instead of natively.
 func NativeUnsupported(reason string) { panic(NativeUnsupportedError(reason)) }
+
+// ConcreteBuffers tells the engine to keep byte buffers that are built from concrete pieces cell by cell
+// (used by the image-constructor harnesses whose metadata buffer is inspected at concrete positions).
+func ConcreteBuffers() {}
